@@ -123,16 +123,31 @@ def build_logic(am: AM, rec: Rec):
     return MachineLogic(actions=actions, guards=guards)
 
 
-def make_plugin(rec: Rec):
+def make_plugin(rec: Rec, hook_faults=False):
     from xstate_statemachine import PluginBase
+
+    def boom(what):
+        if hook_faults:
+            raise HookFault(what)
 
     class Obs(PluginBase):
         def on_event_received(self, interp, event):
             rec.log.append(("begin", event.type, tag_of(event)))
+            boom("on_event_received")
 
         def on_transition(self, interp, from_states, to_states, transition):
             tid = rec.tid_of.get(id(transition), 0)
             rec.log.append(("trans", tid, rec.cfg(interp)))
+            boom("on_transition")
+
+        def on_action_execute(self, interp, action):
+            boom("on_action_execute")
+
+        def on_guard_evaluated(self, interp, guard, event, result):
+            boom("on_guard_evaluated")
+
+        def on_interpreter_start(self, interp):
+            boom("on_interpreter_start")
 
         def on_action_error(self, interp, action, exc):
             p = getattr(action, "params", None)
@@ -141,9 +156,11 @@ def make_plugin(rec: Rec):
             else:
                 t = action.type
                 rec.log.append(("acterr", int(t[1:]) if t[1:].isdigit() else 0))
+            boom("on_action_error")
 
         def on_done(self, interp, output):
             rec.log.append(("done", output))
+            boom("on_done")
     return Obs()
 
 
@@ -187,12 +204,42 @@ class LSet(set):
         super().discard(x)
 
 
-def instrument(interp, rec: Rec, engine):
+class HookFault(Exception):
+    pass
+
+
+def instrument(interp, rec: Rec, engine, hook_faults=False):
     ls = LSet(interp._active_state_nodes)
     ls.rec = rec
     interp._active_state_nodes = ls
-    interp.use(make_plugin(rec))
-    interp.subscribe(lambda it: rec.log.append(("notify", rec.cfg(it))))
+    interp.use(make_plugin(rec, hook_faults))
+
+    def sub(it):
+        rec.log.append(("notify", rec.cfg(it)))
+        if hook_faults:
+            raise HookFault("subscriber")
+    interp.subscribe(sub)
+    emitted = set()
+    for n in rec.am.nodes:
+        for a in n.entry + n.exit:
+            if a[0] == "emit":
+                emitted.add(a[1])
+    for t in rec.am.all_trans():
+        for a in t.actions:
+            if a[0] == "emit":
+                emitted.add(a[1])
+    for k in emitted:
+        def typed(ev, k=k):
+            rec.log.append(("emit", k, 0))
+            if hook_faults:
+                raise HookFault("listener")
+        interp.on("EM%d" % k, typed)
+
+    def wild(ev):
+        rec.log.append(("emit", int(ev.type[2:]), 1))
+        if hook_faults:
+            raise HookFault("wildcard listener")
+    interp.on("*", wild)
     orig_sched = interp._schedule_state_tasks
     orig_cancel = interp._cancel_state_tasks
 
@@ -276,6 +323,8 @@ def flat_log(log):
             out += [TS("can"), TN(1 if o[1] else 0)]
         elif k in ("enter", "leave"):
             out += [TS(k), TN(o[1])]
+        elif k == "emit":
+            out += [TS("emit"), TN(o[1]), TN(o[2])]
         i += 1
     return out
 
@@ -343,7 +392,7 @@ def with_timeout(seconds, fn):
 # sync macro run
 # --------------------------------------------------------------------------
 
-def run_sync(am: AM, events, cfg_opts=None, seed_ctx=None, per_event=True, probe_can=False):
+def run_sync(am: AM, events, cfg_opts=None, seed_ctx=None, per_event=True, probe_can=False, hook_faults=False):
     """start() then send() each event.  Returns list of token lists: the state after
     start and after each send (log is cumulative)."""
     from xstate_statemachine import create_machine, SyncInterpreter
@@ -359,7 +408,7 @@ def run_sync(am: AM, events, cfg_opts=None, seed_ctx=None, per_event=True, probe
         it = SyncInterpreter(machine)
         if seed_ctx:
             it.context.update(seed_ctx)
-        instrument(it, rec, "sync")
+        instrument(it, rec, "sync", hook_faults)
 
         def snap():
             snaps.append(flat_state(am, it, rec, list(it._event_queue)))
@@ -440,7 +489,7 @@ async def quiesce(it, extra=3):
         await asyncio.sleep(0)
 
 
-def run_async(am: AM, events, cfg_opts=None, seed_ctx=None, per_event=True, probe_can=False):
+def run_async(am: AM, events, cfg_opts=None, seed_ctx=None, per_event=True, probe_can=False, hook_faults=False):
     from xstate_statemachine import create_machine, Interpreter
     rec = Rec(am)
     snaps = []
@@ -456,7 +505,7 @@ def run_async(am: AM, events, cfg_opts=None, seed_ctx=None, per_event=True, prob
         it = Interpreter(machine)
         if seed_ctx:
             it.context.update(seed_ctx)
-        instrument(it, rec, "async")
+        instrument(it, rec, "async", hook_faults)
 
         def snap():
             q = list(getattr(it._event_queue, "_queue", []))
